@@ -28,7 +28,7 @@ func zzC09FS() *zzFS {
 // VerifC09_Locks: every entry point on a shared engine / base template with
 // shared read-only data.
 func VerifC09_Locks() {
-	entry := zzChoice("entry", 6)
+	entry := zzChoice("entry", 7)
 	warm := zzBool("warm")
 	// the files' modification times change while renders are running:
 	// 0 never, 1 before every render, 2 before every other render (the
@@ -55,6 +55,11 @@ func VerifC09_Locks() {
 			err = tpl.New().Fill(data).RenderString(contextBackground(), w, `<p v-if="n == 1" :title="a.b[0]">{{ items[1] }}</p><template include="c.vuego" :n="n"></template>`)
 		case 5:
 			err = vue.Render(w, "page.vuego", data)
+		case 6: // request-specific variables are assigned on top of the shared data
+			err = tpl.New().Fill(data).Assign("user", "u1").RenderString(contextBackground(), w, `<p>{{ n }}:{{ user }}</p>`)
+			if err == nil {
+				err = tpl.Load("plain.vuego").Fill(data).Assign("user", "u2").Render(contextBackground(), w)
+			}
 		}
 		return string(w.got), err
 	}
